@@ -10,6 +10,7 @@ CONSTANTS
   Protos = {TRUE, FALSE}
   Faults <- AllFaults
   Spurious = FALSE
+  AllowDrop = FALSE
   GenDepth = 30
   MaxCancel = 1
 INIT InitH
